@@ -452,6 +452,7 @@ REMARK = {
  "C02-6": "same idea as C01-1, written independently for C02; the property it breaks is C04's",
  "C02-7": "patch rebased on fix c9f4234 (patch.orig.diff is the sub-agent's original)",
  "C04-6": "patch rebased on fix 99e28af (patch.orig.diff is the sub-agent's original)",
+ "C14-3": "the demonstration was invalidated by fix e77bb49 (F35): it expects the application's TRUNCATE checkpoint to succeed while Close is still waiting for an open snapshot stream, which is exactly the behaviour that fix removed (it now times out with and without the patch); the change is still caught by C12",
  "C18-5": "patch rebased on the hydration fixes (patch.orig.diff is the sub-agent's original)",
 }
 
